@@ -1,10 +1,103 @@
-(** C07 — pinned statements. Nothing but statements, [exact], and assumption audits. *)
-From TU Require Import Base C07_Model C07_Proofs.
+(** C07 — pinned statements. Nothing but statements, [exact], and assumption audits.
+    [run_gen s o srcs]: the model of MultiTrainDataGenerator::new + draining the
+    iterator; a source is the list of items its generator yields; [o] is the oracle
+    for the weighted draw ([oracle_guard]: the sampled position is below the number
+    of unfinished sources, which is what rand guarantees). [srcs <> []]: the callers
+    refuse an empty file list. *)
+From TU Require Import Base C07_Model C07_Proofs C07_Specs C07_Top.
+
+(** Termination, every strategy, every oracle in range: the fuel
+    (sum of lengths + number of sources + 1 pulls) is never exhausted, no assertion or
+    index panic is reached; the only refusal is the constructor's (weighted with an
+    empty source). *)
+Theorem gen_total : forall (A : Type) (s : strategy) (o : oracle) (srcs : list (list A)),
+  srcs <> [] -> oracle_guard o ->
+  is_weighted s && existsb is_nil srcs = false ->
+  exists out, run_gen s o srcs = Ok out.
+Proof. intros A. exact gen_total_l. Qed.
+Print Assumptions gen_total.
+
+(** Sequential and interleaved do not consult the oracle: total without hypothesis on it,
+    empty sources allowed. *)
+Theorem gen_total_unweighted : forall (A : Type) (s : strategy) (o : oracle) (srcs : list (list A)),
+  srcs <> [] -> s <> Weighted -> exists out, run_gen s o srcs = Ok out.
+Proof. intros A. exact gen_total_nw_l. Qed.
+Print Assumptions gen_total_unweighted.
+
+(** For an arbitrary (even out-of-range) oracle the run never runs out of fuel and never
+    trips the assertion. *)
+Theorem gen_never_stuck : forall (A : Type) (s : strategy) (o : oracle) (srcs : list (list A)),
+  srcs <> [] -> run_gen s o srcs <> Err OutOfFuel /\ run_gen s o srcs <> Err AssertFail.
+Proof. intros A. exact gen_safe_l. Qed.
+Print Assumptions gen_never_stuck.
+
+Theorem gen_ctor_err : forall (A : Type) (s : strategy) (o : oracle) (srcs : list (list A)),
+  is_weighted s && existsb is_nil srcs = true -> run_gen s o srcs = Err CtorErr.
+Proof. intros A. exact gen_ctor_l. Qed.
+Print Assumptions gen_ctor_err.
+
+(** Each item exactly once, in per-source order, with the right tag: for every strategy
+    and every oracle, the outputs tagged [j] are exactly source [j] in order, there are
+    as many outputs as items, and every tag names a source. *)
+Theorem gen_items : forall (A : Type) (s : strategy) (o : oracle) (srcs : list (list A)) out,
+  srcs <> [] -> run_gen s o srcs = Ok out ->
+  (forall j, proj j out = nth j srcs []) /\ length out = total_len srcs /\
+  Forall (fun p => fst p < length srcs) out.
+Proof. intros A. exact gen_items_l. Qed.
+Print Assumptions gen_items.
+
+(** Sequential = the tagged sources one after another (empty sources allowed). *)
+Theorem sequential_spec : forall (A : Type) (o : oracle) (srcs : list (list A)),
+  srcs <> [] -> run_gen Sequential o srcs = Ok (seq_spec srcs).
+Proof. intros A. exact sequential_spec_l. Qed.
+Print Assumptions sequential_spec.
+
+(** Interleaved (repaired selection) = round-robin transpose: round r lists, in source
+    order, the r-th item of every source that has one (empty sources allowed). *)
+Theorem interleaved_spec : forall (A : Type) (o : oracle) (srcs : list (list A)),
+  srcs <> [] -> run_gen Interleaved o srcs = Ok (rr srcs).
+Proof. intros A. exact interleaved_spec_l. Qed.
+Print Assumptions interleaved_spec.
 
 (** The hang of the pinned tree as a theorem about the model of the unrepaired
-    interleaved selection: on source lengths [1;3] no amount of fuel (outer: calls
-    of next(); inner: iterations of the while loop) produces a result. *)
+    interleaved selection: on source lengths [1;3] no amount of fuel (outer: pulls;
+    inner: iterations of the while loop) produces a result. *)
 Theorem interleaved_pinned_diverges : forall (A : Type) (a b c d : A) f g,
   run_pinned f g [[a]; [b; c; d]] = Err OutOfFuel.
 Proof. exact pinned_diverges_l. Qed.
 Print Assumptions interleaved_pinned_diverges.
+
+(** The executable "tagged interleaving" test used by the checker is exactly the
+    items clause. *)
+Theorem is_ti_iff : forall (srcs : list (list item)) (out : list (nat * item)),
+  is_ti item_eqb srcs out = true <->
+  (forall j, proj j out = nth j srcs []) /\ Forall (fun p => fst p < length srcs) out.
+Proof. exact is_ti_iff_l. Qed.
+Print Assumptions is_ti_iff.
+
+(** The executable statement evaluated on implementation outputs holds of the model's own output. *)
+Theorem check_run : forall v, v_srcs v <> [] -> check_C07 v (run_C07 v) = true.
+Proof. exact check_run_l. Qed.
+Print Assumptions check_run.
+
+(** ... and a passing check of an output that is not the constructor error means the
+    decoded items satisfy the property's clauses. *)
+Theorem check_sound : forall v out, check_C07 v out = true -> shape_ctor_err out = false ->
+  let srcs := v_srcs v in
+  let items := v_list v_out (v_nth 1 out) in
+  (forall j, proj j items = nth j srcs []) /\ length items = total_len srcs /\
+  Forall (fun p => fst p < length srcs) items /\
+  (v_strategy (v_nth 0 v) = Sequential -> items = seq_spec srcs) /\
+  (v_strategy (v_nth 0 v) = Interleaved -> items = rr srcs).
+Proof. exact check_sound_l. Qed.
+Print Assumptions check_sound.
+
+(** Non-vacuity: an oracle in range; concrete runs. *)
+Example oracle_guard_witness : oracle_guard (fun t m => t mod m).
+Proof. intros t m Hm. apply Nat.mod_upper_bound. intro E. rewrite E in Hm. inversion Hm. Qed.
+Example interleaved_1_3 : run_gen Interleaved (fun _ _ => 0) [[10]; [20; 21; 22]]
+  = Ok [(0, 10); (1, 20); (1, 21); (1, 22)].
+Proof. vm_compute. reflexivity. Qed.
+Example weighted_run : run_gen Weighted (fun t m => t mod m) [[1; 5; 6]; [2; 3; 4; 7; 8]; [9]]
+  = Ok [(0, 1); (0, 5); (1, 2); (2, 9); (0, 6); (1, 3); (1, 4); (1, 7); (1, 8)].
+Proof. vm_compute. reflexivity. Qed.
